@@ -1,3 +1,3 @@
 SPECIFICATION Spec
-INVARIANTS ExplicitZeroHonoured AcceptanceAgrees EachOptionItsOwnField SyntaxesAgree CacheAsymmetry DefaultsWhenUnset OnlyDocVarsSubstituted NoVarNoChange UnsetTakesDefaultInList OptionStaysInItsEntry EntriesIndependent ZeroHonouredInList
+INVARIANTS ExplicitZeroHonoured AcceptanceAgrees EachOptionItsOwnField LayoutIrrelevant SyntaxesAgree CacheAsymmetry DefaultsWhenUnset OnlyDocVarsSubstituted NoVarNoChange UnsetTakesDefaultInList OptionStaysInItsEntry EntriesIndependent ZeroHonouredInList
 CHECK_DEADLOCK FALSE
